@@ -742,8 +742,12 @@ pub fn run(tier: Tier, seed: u64) -> Report {
     if rep.failed() {
         return rep;
     }
-    let r = engine::explore("C03", "schedule", seed, tier.pick(1500, 40_000), ccase, check);
+    let r = engine::explore("C03", "schedule", seed, tier.pick(4000, 40_000), ccase, check);
     rep.absorb("generated-batches-and-schedules", r);
+    if rep.failed() {
+        return rep;
+    }
+    stress_subrun(&mut rep, tier, seed);
     rep
 }
 
@@ -752,6 +756,7 @@ pub fn replay(kind: &str, case_json: &Value, st: &mut Stats) -> CheckResult {
     match kind {
         "schedule" => check(&serde_json::from_value(case_json.clone()).map_err(bad)?, st),
         "all-schedules" => check_all_schedules(&serde_json::from_value(case_json.clone()).map_err(bad)?, st),
+        "stress" => check_stress(&serde_json::from_value(case_json.clone()).map_err(bad)?, st),
         _ => Err(Fail::Inconclusive(format!("unknown replay kind {kind}"))),
     }
 }
@@ -922,4 +927,221 @@ pub fn c11_overlap_subrun(rep: &mut Report, tier: Tier) {
 pub fn c11_replay(case_json: &Value, st: &mut Stats) -> CheckResult {
     let cc: CCase = serde_json::from_value(case_json.clone()).map_err(|e| Fail::Inconclusive(format!("bad replay file: {e}")))?;
     c11_all_schedules(&cc, st)
+}
+
+// ---------------------------------------------------------------------------------------------
+// Stress complement: schedules the operating system picks (sound, not complete, and a failure
+// need not reproduce from its replay file - the saved case re-runs the same scripts)
+
+#[derive(Clone, Debug, Serialize, Deserialize, PartialEq, Eq, Hash)]
+pub enum StressOp {
+    /// AddVersion on what this thread believes is the latest version
+    Append(u8),
+    /// AddVersion on the nil parent (a first request if the client is new)
+    First(u8),
+    SnapshotLatest(u8),
+    GetSnapshot(u8),
+    GetChildNil(u8),
+}
+
+#[derive(Clone, Debug, Serialize, Deserialize, PartialEq, Eq, Hash)]
+pub struct StressCase {
+    /// 0 = memory (in process), 1 = SQLite one object per thread (in process), 2 = two real server processes on one directory
+    pub setup: u8,
+    pub nclients: u8,
+    pub scripts: Vec<Vec<StressOp>>,
+    pub salt: u32,
+}
+
+fn stress_op(n: u8) -> impl Strategy<Value = StressOp> {
+    prop_oneof![
+        6 => (0..n).prop_map(StressOp::Append),
+        3 => (0..n).prop_map(StressOp::First),
+        2 => (0..n).prop_map(StressOp::SnapshotLatest),
+        1 => (0..n).prop_map(StressOp::GetSnapshot),
+        1 => (0..n).prop_map(StressOp::GetChildNil),
+    ]
+}
+
+fn stress_case(max_ops: usize) -> BoxedStrategy<StressCase> {
+    (0u8..3, 1u8..4, any::<u32>())
+        .prop_flat_map(move |(setup, n, salt)| (Just(setup), Just(n), Just(salt), proptest::collection::vec(proptest::collection::vec(stress_op(n), 4..=max_ops), 3..=8)))
+        .prop_map(|(setup, nclients, salt, scripts)| StressCase { setup, nclients, scripts, salt: salt & 0xFFFF })
+        .boxed()
+}
+
+pub fn check_stress(sc: &StressCase, st: &mut Stats) -> CheckResult {
+    use crate::sock::{exchange, Encoding, SockError};
+    let clients: Vec<Uuid> = (0..sc.nclients).map(|i| case::client_uuid(sc.salt, i)).collect();
+    let cfg = Cfg { snapshot_days: 14, snapshot_versions: 3 };
+    let dir = TempDir::new("c03s");
+    let sv = |e: anyhow::Error| Fail::Violation(format!("opening storage: {e:#}"));
+    let mem: Arc<dyn Storage> = Arc::new(InMemoryStorage::new());
+    // the two real processes, if asked for
+    let mut procs = vec![];
+    if sc.setup == 2 {
+        let Some(bin) = crate::props::binary::server_bin() else { return Err(Fail::Inconclusive("the server executable has not been built".into())) };
+        for _ in 0..2 {
+            let mut started = None;
+            for _ in 0..4 {
+                let l = std::net::TcpListener::bind("127.0.0.1:0").map_err(|e| Fail::Inconclusive(format!("no loopback port: {e}")))?;
+                let port = l.local_addr().unwrap().port();
+                drop(l);
+                let launch = crate::props::binary::Launch {
+                    args: vec!["--data-dir".into(), dir.path().to_string_lossy().into_owned(), "--listen".into(), format!("127.0.0.1:{port}"), "--snapshot-versions".into(), "3".into()],
+                    env: vec![],
+                    connect: vec![format!("127.0.0.1:{port}").parse().unwrap()],
+                };
+                if let Ok(p) = crate::props::binary::spawn(&bin, &launch) {
+                    started = Some(p);
+                    break;
+                }
+            }
+            match started {
+                Some(p) => procs.push(p),
+                None => return Err(Fail::Inconclusive("cannot start the server executable".into())),
+            }
+        }
+    }
+    let addrs: Vec<std::net::SocketAddr> = procs.iter().map(|p| p.addrs[0]).collect();
+    type Rec = (usize, StressOp, Uuid, Outcome, std::time::Duration);
+    let results: Arc<Mutex<Vec<Rec>>> = Arc::new(Mutex::new(vec![]));
+    let start_gate = Arc::new(std::sync::Barrier::new(sc.scripts.len()));
+    let mut joins = vec![];
+    for (t, script) in sc.scripts.iter().cloned().enumerate() {
+        let clients = clients.clone();
+        let results = results.clone();
+        let gate = start_gate.clone();
+        let cfg = cfg.clone();
+        let addrs = addrs.clone();
+        let inner: Option<Arc<dyn Storage>> = match sc.setup {
+            0 => Some(mem.clone()),
+            1 => Some(Arc::new(SqliteStorage::new(dir.path()).map_err(sv)?)),
+            _ => None,
+        };
+        let backend = if sc.setup == 0 { Backend::Mem } else { Backend::Sqlite };
+        joins.push(std::thread::spawn(move || {
+            let mut drv = inner.map(|i| {
+                let i2 = i.clone();
+                Driver::with_factory(backend, Via::Http, &cfg, None, Box::new(move || Ok(Stores { served: i.clone(), probe: i2.clone() })), None).expect("driver")
+            });
+            let mut latest = vec![Uuid::nil(); clients.len()];
+            gate.wait();
+            for (k, op) in script.iter().enumerate() {
+                let (ci, ep, id) = match op {
+                    StressOp::Append(c) => (*c, crate::driver::Endpoint::AddVersion, latest[*c as usize]),
+                    StressOp::First(c) => (*c, crate::driver::Endpoint::AddVersion, Uuid::nil()),
+                    StressOp::SnapshotLatest(c) => (*c, crate::driver::Endpoint::AddSnapshot, latest[*c as usize]),
+                    StressOp::GetSnapshot(c) => (*c, crate::driver::Endpoint::GetSnapshot, Uuid::nil()),
+                    StressOp::GetChildNil(c) => (*c, crate::driver::Endpoint::GetChild, Uuid::nil()),
+                };
+                let c = clients[ci as usize];
+                let body = vec![t as u8, k as u8, 1, 2, 3];
+                let t0 = std::time::Instant::now();
+                let out = match &mut drv {
+                    Some(d) => match ep {
+                        crate::driver::Endpoint::AddVersion => d.add_version(c, id, &body),
+                        crate::driver::Endpoint::AddSnapshot => d.add_snapshot(c, id, &body),
+                        crate::driver::Endpoint::GetSnapshot => d.get_snapshot(c),
+                        crate::driver::Endpoint::GetChild => d.get_child(c, id),
+                    },
+                    None => {
+                        let req = match ep {
+                            crate::driver::Endpoint::AddVersion => crate::driver::req_add_version(c, id, vec![bytes::Bytes::from(body.clone())]),
+                            crate::driver::Endpoint::AddSnapshot => crate::driver::req_add_snapshot(c, id, vec![bytes::Bytes::from(body.clone())]),
+                            crate::driver::Endpoint::GetSnapshot => crate::driver::req_get_snapshot(c),
+                            crate::driver::Endpoint::GetChild => crate::driver::req_get_child(c, id),
+                        };
+                        match exchange(addrs[(t + k) % addrs.len()], &req, Encoding::ContentLength, &[], Duration::from_secs(30)) {
+                            Ok(r) => crate::driver::decode(ep, &r),
+                            Err(SockError::NoResponse(m)) | Err(SockError::Io(m)) => Outcome::Refused { status: 0 }.clone_with(m),
+                        }
+                    }
+                };
+                match &out {
+                    Outcome::Accepted { id, .. } => latest[ci as usize] = *id,
+                    Outcome::Conflict { latest: l } => latest[ci as usize] = *l,
+                    _ => {}
+                }
+                results.lock().unwrap().push((t, op.clone(), id, out, t0.elapsed()));
+            }
+        }));
+    }
+    for j in joins {
+        let _ = j.join();
+    }
+    let results = results.lock().unwrap().clone();
+    st.check();
+    let what = format!("{} threads, {} clients, setup {}", sc.scripts.len(), sc.nclients, match sc.setup { 0 => "memory in process", 1 => "SQLite in process, one storage object per thread", _ => "two server processes on one data directory" });
+    if results.iter().any(|r| r.4 > Duration::from_millis(2500)) {
+        return Err(Fail::Inconclusive(format!("{what}: a request waited longer than half the lock budget")));
+    }
+    if results.iter().any(|r| matches!(r.3, Outcome::Refused { status: 0 })) {
+        return Err(Fail::Inconclusive(format!("{what}: a socket exchange produced no response")));
+    }
+    for (t, op, id, out, _) in &results {
+        if out.is_error() {
+            return v(format!("{what}: thread {t}: {op:?} ({id}) was answered {} although nothing but other requests was going on", out.short()));
+        }
+    }
+    // per client: one accepted version per parent, every acknowledged version on the chain
+    let probe: Arc<dyn Storage> = if sc.setup == 0 { mem.clone() } else { Arc::new(SqliteStorage::new(dir.path()).map_err(sv)?) };
+    for (ci, c) in clients.iter().enumerate() {
+        let mut parents = std::collections::HashSet::new();
+        let mut acked = vec![];
+        for (_, op, id, out, _) in &results {
+            let opc = match op {
+                StressOp::Append(c) | StressOp::First(c) => *c as usize,
+                _ => usize::MAX,
+            };
+            if opc == ci {
+                if let Outcome::Accepted { id: nid, .. } = out {
+                    if !parents.insert(*id) {
+                        return v(format!("{what}: client #{ci}: two AddVersion requests were accepted on parent {id}"));
+                    }
+                    acked.push(*nid);
+                }
+            }
+        }
+        let mut chain = vec![];
+        let mut p = Uuid::nil();
+        let mut t = probe.txn(*c).map_err(sv)?;
+        while let Some(ver) = t.get_version_by_parent(p).map_err(sv)? {
+            chain.push(ver.version_id);
+            p = ver.version_id;
+            if chain.len() > 100_000 {
+                break;
+            }
+        }
+        drop(t);
+        for a in &acked {
+            if !chain.contains(a) {
+                return v(format!("{what}: client #{ci}: acknowledged version {a} is not on the chain afterwards (chain has {} versions, {} were acknowledged)", chain.len(), acked.len()));
+            }
+        }
+        if chain.len() != acked.len() {
+            return v(format!("{what}: client #{ci}: {} versions on the chain but {} acknowledgements", chain.len(), acked.len()));
+        }
+        if acked.len() >= 2 {
+            st.label("c03:stress:client-with-contended-chain");
+        }
+    }
+    let conflicts = results.iter().filter(|r| matches!(r.3, Outcome::Conflict { .. })).count();
+    st.label(&format!("c03:stress:setup{}", sc.setup));
+    if conflicts > 0 {
+        st.nontrivial(&("c03-stress", sc.setup, sc.scripts.len(), sc.nclients, conflicts.min(20), results.len()));
+    }
+    Ok(())
+}
+
+pub fn stress_subrun(rep: &mut Report, tier: Tier, seed: u64) {
+    let r = engine::replay_dir::<StressCase, _>("C03", "stress", check_stress);
+    rep.absorb("replay-tier-stress", r);
+    if rep.failed() {
+        return;
+    }
+    let max = tier.pick(12, 50);
+    // each case spawns up to 8 threads (and two processes): fewer workers than cores
+    let r = engine::explore_n("C03", "stress", seed, tier.pick(60, 3000), 6, || stress_case(max), check_stress);
+    rep.absorb("stress-os-schedules", r);
 }
